@@ -259,9 +259,10 @@ Qed.
 
 (* ---- the parser functions: no panic, boundaries in, boundaries out --------- *)
 
-Lemma parse_setting_S fixed src f i0 :
-  parse_setting fixed src (S f) i0 =
-  (do i <- parse_ws src i0;
+Lemma parse_setting_S fixed dfx stk src f d i0 :
+  parse_setting fixed dfx stk src (S f) d i0 =
+  (if stack_exhausted stk d then Panic else
+   do i <- parse_ws src i0;
    do rest <- slice_from src i;
    match re_digits rest with
    | Some mend => setting_num fixed src i mend
@@ -272,15 +273,19 @@ Lemma parse_setting_S fixed src f i0 :
      | None =>
          do la <- lookahead_is src LBRACK i;
          match la with
-         | Some j => array_loop fixed src f i j j []
+         | Some j =>
+             if dfx && (MAX_SETTING_DEPTH <=? d) then
+               do sp <- mk_span i j;
+               Done (Err {| ekind := UnexpectedToken 91; elocs := [sp] |})
+             else array_loop fixed dfx stk src f d i j j []
          | None => setting_path src i
          end
      end
    end).
 Proof. reflexivity. Qed.
 
-Lemma array_loop_S fixed src f i open_pos j0 vals :
-  array_loop fixed src (S f) i open_pos j0 vals =
+Lemma array_loop_S fixed dfx stk src f d i open_pos j0 vals :
+  array_loop fixed dfx stk src (S f) d i open_pos j0 vals =
   (do j <- parse_ws src j0;
    do la <- lookahead_is src RBRACK j;
    match la with
@@ -289,29 +294,29 @@ Lemma array_loop_S fixed src f i open_pos j0 vals :
        do csp <- mk_span j end_pos;
        Done (Ok (Array vals osp csp, end_pos))
    | None =>
-       do r <- parse_setting fixed src f j;
+       do r <- parse_setting fixed dfx stk src f (S d) j;
        match r with
        | Ok (val, k) =>
            do j1 <- parse_ws src k;
            do la1 <- lookahead_is src COMMA j1;
-           array_loop fixed src f i open_pos (match la1 with Some k1 => k1 | None => j1 end) (vals ++ [val])
+           array_loop fixed dfx stk src f d i open_pos (match la1 with Some k1 => k1 | None => j1 end) (vals ++ [val])
        | Err e =>
            do la0 <- (if fixed then lookahead_is src COMMA j else Done (Some j));
            match la0 with
            | None => Done (Err e)
            | Some _ =>
                do la1 <- lookahead_is src COMMA j;
-               array_loop fixed src f i open_pos (match la1 with Some k1 => k1 | None => j end) vals
+               array_loop fixed dfx stk src f d i open_pos (match la1 with Some k1 => k1 | None => j end) vals
            end
        end
    end).
 Proof. reflexivity. Qed.
 
-Lemma section_loop_S fixed src f i ret errs :
-  section_loop fixed src (S f) i ret errs =
+Lemma section_loop_S fixed dfx stk src f i ret errs :
+  section_loop fixed dfx stk src (S f) i ret errs =
   (do la <- lookahead_is src RBRACE i;
    if (match la with None => true | Some _ => false end) && (i <? byte_len src) then
-     do kv <- parse_key_value fixed src f i;
+     do kv <- parse_key_value fixed dfx stk src f i;
      match kv with
      | Err e => Done (inl (errs ++ [e]))
      | Ok (key, key_loc, val, j) =>
@@ -324,7 +329,7 @@ Lemma section_loop_S fixed src f i ret errs :
          let '(ret', errs') := st in
          do la1 <- lookahead_is src COMMA j;
          match la1 with
-         | Some j1 => do i' <- parse_ws src j1; section_loop fixed src f i' ret' errs'
+         | Some j1 => do i' <- parse_ws src j1; section_loop fixed dfx stk src f i' ret' errs'
          | None => do i' <- parse_ws src j; Done (inr (i', ret', errs'))
          end
      end
@@ -332,17 +337,19 @@ Lemma section_loop_S fixed src f i ret errs :
 Proof. reflexivity. Qed.
 
 (* outcome of a model function: a good result; a panic only in the pinned
-   variant; out of fuel only in the pinned variant or below the stated need *)
-Definition safe {A} (fixed : bool) (o : outcome A) (P : A -> Prop) (need fuel : nat) : Prop :=
+   variant or on a bounded stack; out of fuel only in the pinned variant or
+   below the stated need *)
+Definition safe {A} (fixed : bool) (stk : option nat) (o : outcome A) (P : A -> Prop)
+  (need fuel : nat) : Prop :=
   match o with
   | Done r => P r
-  | Panic => fixed = false
+  | Panic => fixed = false \/ stk <> None
   | OutOfFuel => fixed = false \/ fuel < need
   end.
 
-Lemma safe_mono {A} fixed (o : outcome A) (P Q : A -> Prop) need need' fuel fuel' :
-  safe fixed o P need fuel -> (forall r, P r -> Q r) -> (fuel < need -> fuel' < need') ->
-  safe fixed o Q need' fuel'.
+Lemma safe_mono {A} fixed stk (o : outcome A) (P Q : A -> Prop) need need' fuel fuel' :
+  safe fixed stk o P need fuel -> (forall r, P r -> Q r) -> (fuel < need -> fuel' < need') ->
+  safe fixed stk o Q need' fuel'.
 Proof.
   destruct o as [r| |]; simpl; intros H HPQ Hf.
   - apply HPQ. exact H.
@@ -350,8 +357,8 @@ Proof.
   - destruct H as [H|H]; [left; exact H | right; apply Hf; exact H].
 Qed.
 
-Lemma safe_done {A} fixed (o : outcome A) (P : A -> Prop) need fuel :
-  (exists r, o = Done r /\ P r) -> safe fixed o P need fuel.
+Lemma safe_done {A} fixed stk (o : outcome A) (P : A -> Prop) need fuel :
+  (exists r, o = Done r /\ P r) -> safe fixed stk o P need fuel.
 Proof. intros (r & Ho & HP). subst o. exact HP. Qed.
 
 Section WithSrc.
@@ -457,9 +464,9 @@ Proof.
   intros (H1 & H2 & H3) Hle. split; [exact H1|]. split; [lia | exact H3].
 Qed.
 
-Lemma setting_num_spec fixed i rest mend lo :
+Lemma setting_num_spec fixed stk i rest mend lo :
   at_pos src i rest -> re_digits rest = Some mend -> lo <= i ->
-  safe fixed (setting_num fixed src i mend) (good lo) 0 0.
+  safe fixed stk (setting_num fixed src i mend) (good lo) 0 0.
 Proof.
   intros Hat Hd Hlo. pose proof (re_digits_spec rest) as Hs. rewrite Hd in Hs.
   destruct Hs as (ds & post & Hr & Hne & _ & _ & Hm). subst mend.
@@ -474,7 +481,7 @@ Proof.
   - ws_step Hbe as i' Hbi' Hle. simpl.
     split; [exact Hbi'|]. split; [lia|].
     constructor; [apply span_wf_of; auto; lia | constructor].
-  - destruct fixed; simpl; [|reflexivity].
+  - destruct fixed; simpl; [|left; reflexivity].
     apply err_wf_single; auto; lia.
 Qed.
 
@@ -536,17 +543,19 @@ Proof.
     split; [exact Hb1|]. split; [lia | exact Hsp].
 Qed.
 
-Lemma setting_master fixed : forall fuel,
-  (forall i0, bnd i0 ->
-     safe fixed (parse_setting fixed src fuel i0) (good i0) (2 * (len - i0) + 1) fuel) /\
-  (forall i open_pos j0 vals, bnd i -> bnd open_pos -> bnd j0 -> i <= open_pos -> open_pos <= j0 ->
+Lemma setting_master fixed dfx stk : forall fuel,
+  (forall d i0, bnd i0 ->
+     safe fixed stk (parse_setting fixed dfx stk src fuel d i0) (good i0) (2 * (len - i0) + 1) fuel) /\
+  (forall d i open_pos j0 vals, bnd i -> bnd open_pos -> bnd j0 -> i <= open_pos -> open_pos <= j0 ->
      Forall (span_wf src) (flat_map setting_spans vals) ->
-     safe fixed (array_loop fixed src fuel i open_pos j0 vals) (good j0) (2 * (len - j0) + 2) fuel).
+     safe fixed stk (array_loop fixed dfx stk src fuel d i open_pos j0 vals) (good j0) (2 * (len - j0) + 2) fuel).
 Proof.
   induction fuel as [|f [IHs IHa]].
   - split; intros; simpl; right; lia.
   - split.
-    + intros i0 Hb0. rewrite parse_setting_S.
+    + intros d i0 Hb0. rewrite parse_setting_S.
+      destruct (stack_exhausted stk d) eqn:Ex.
+      { simpl. right. destruct stk as [s|]; [discriminate | simpl in Ex; discriminate]. }
       ws_step Hb0 as i Hbi Hle.
       destruct (boundary_at_pos _ _ Hbi) as (rest & Hat).
       rewrite (slice_from_at _ _ _ Hat). cbn [obind].
@@ -558,10 +567,13 @@ Proof.
            destruct o as [j|].
            ++ destruct Ho as (Hbj & Hj). change (byte_len LBRACK) with 1 in Hj.
               pose proof (boundary_le _ _ Hbj) as Hjl.
-              eapply safe_mono; [apply (IHa i j j []); auto; try lia; constructor | | lia].
+              destruct (dfx && (MAX_SETTING_DEPTH <=? d)).
+              { rewrite (mk_span_ok i j) by lia. cbn [obind]. simpl.
+                apply err_wf_single; auto; lia. }
+              eapply safe_mono; [apply (IHa d i j j []); auto; try lia; constructor | | lia].
               intros r Hr. eapply good_mono; [exact Hr | lia].
            ++ apply safe_done. apply setting_path_spec; auto.
-    + intros i open_pos j0 vals Hbi Hbo Hb0 Hio Hoj Hvals. rewrite array_loop_S.
+    + intros d i open_pos j0 vals Hbi Hbo Hb0 Hio Hoj Hvals. rewrite array_loop_S.
       ws_step Hb0 as j Hbj Hle.
       la_step RBRACK Hbj as o Ho.
       destruct o as [end_pos|].
@@ -571,9 +583,9 @@ Proof.
         split; [exact Hbe|]. split; [lia|].
         constructor; [apply span_wf_of; auto|].
         constructor; [apply span_wf_of; auto; lia | exact Hvals].
-      * specialize (IHs j Hbj).
+      * specialize (IHs (S d) j Hbj).
         pose proof (boundary_le _ _ Hbj) as Hjl.
-        destruct (parse_setting fixed src f j) as [r| |] eqn:Eps; cbn [obind]; simpl in IHs.
+        destruct (parse_setting fixed dfx stk src f (S d) j) as [r| |] eqn:Eps; cbn [obind]; simpl in IHs.
         -- destruct r as [[val k]|e].
            ++ destruct IHs as (Hbk & Hjk & Hsv).
               ws_step Hbk as j1 Hbj1 Hle1.
@@ -583,7 +595,7 @@ Proof.
                                       | exists j1; repeat split; auto]. }
               destruct Hn as (jn & Hjn & Hbjn & Hlen). rewrite Hjn.
               pose proof (boundary_le _ _ Hbjn) as Hjnl.
-              eapply safe_mono; [apply (IHa i open_pos jn (vals ++ [val])); auto; try lia | | lia].
+              eapply safe_mono; [apply (IHa d i open_pos jn (vals ++ [val])); auto; try lia | | lia].
               ** rewrite flat_map_app. apply Forall_app. split; [exact Hvals|].
                  simpl. rewrite app_nil_r. exact Hsv.
               ** intros r Hr. eapply good_mono; [exact Hr | lia].
@@ -592,7 +604,7 @@ Proof.
                  destruct o0 as [k1|]; [|simpl; exact IHs].
                  destruct Ho0 as (Hbk1 & Hk1). change (byte_len COMMA) with 1 in Hk1.
                  pose proof (boundary_le _ _ Hbk1) as Hk1l.
-                 eapply safe_mono; [apply (IHa i open_pos k1 vals); auto; try lia | | lia].
+                 eapply safe_mono; [apply (IHa d i open_pos k1 vals); auto; try lia | | lia].
                  intros r Hr. eapply good_mono; [exact Hr | lia].
               ** cbn [obind].
                  la_step COMMA Hbj as o0 Ho0.
@@ -600,18 +612,18 @@ Proof.
                  { destruct o0 as [k1|]; [destruct Ho0 as (H1 & H2); exists k1; repeat split; auto; lia
                                          | exists j; repeat split; auto]. }
                  destruct Hn as (jn & Hjn & Hbjn & Hlen). rewrite Hjn.
-                 specialize (IHa i open_pos jn vals Hbi Hbo Hbjn Hio ltac:(lia) Hvals).
-                 destruct (array_loop false src f i open_pos jn vals) as [r| |]; simpl; simpl in IHa.
+                 specialize (IHa d i open_pos jn vals Hbi Hbo Hbjn Hio ltac:(lia) Hvals).
+                 destruct (array_loop false dfx stk src f d i open_pos jn vals) as [r| |]; simpl; simpl in IHa.
                  --- eapply good_mono; [exact IHa | lia].
-                 --- reflexivity.
+                 --- left; reflexivity.
                  --- left; reflexivity.
         -- exact IHs.
         -- destruct IHs as [H|H]; [left; exact H | right; lia].
 Qed.
 
-Lemma parse_setting_spec fixed fuel i0 : bnd i0 ->
-  safe fixed (parse_setting fixed src fuel i0) (good i0) (2 * (len - i0) + 1) fuel.
-Proof. intros H. apply (proj1 (setting_master fixed fuel)). exact H. Qed.
+Lemma parse_setting_spec fixed dfx stk fuel d i0 : bnd i0 ->
+  safe fixed stk (parse_setting fixed dfx stk src fuel d i0) (good i0) (2 * (len - i0) + 1) fuel.
+Proof. intros H. apply (proj1 (setting_master fixed dfx stk fuel)). exact H. Qed.
 
 Definition good_kv (i : nat) (r : res (list N * span * value * nat)) : Prop :=
   match r with
@@ -620,8 +632,8 @@ Definition good_kv (i : nat) (r : res (list N * span * value * nat)) : Prop :=
   | Err e => err_wf e
   end.
 
-Lemma parse_key_value_spec fixed fuel i : bnd i ->
-  safe fixed (parse_key_value fixed src fuel i) (good_kv i) (2 * (len - i) + 1) fuel.
+Lemma parse_key_value_spec fixed dfx stk fuel i : bnd i ->
+  safe fixed stk (parse_key_value fixed dfx stk src fuel i) (good_kv i) (2 * (len - i) + 1) fuel.
 Proof.
   intros Hb. unfold parse_key_value.
   la_step BANG Hb as o Ho.
@@ -644,9 +656,9 @@ Proof.
     la_step COLON Hb1 as o1 Ho1.
     destruct o1 as [j1|].
     + destruct Ho1 as (Hbj1 & Hj1). change (byte_len COLON) with 1 in Hj1.
-      pose proof (parse_setting_spec fixed fuel j1 Hbj1) as Hps.
+      pose proof (parse_setting_spec fixed dfx stk fuel 0 j1 Hbj1) as Hps.
       pose proof (boundary_le _ _ Hbj1) as Hj1l.
-      destruct (parse_setting fixed src fuel j1) as [r2| |]; cbn [obind]; simpl in Hps.
+      destruct (parse_setting fixed dfx stk src fuel 0 j1) as [r2| |]; cbn [obind]; simpl in Hps.
       * destruct r2 as [[val j2]|e]; simpl; [|exact Hps].
         destruct Hps as (Hb2 & Hlt & Hsp).
         split; [exact Hb2|]. split; [lia|].
@@ -735,8 +747,8 @@ Definition good_loop (i : nat) (st : list herror + (nat * header * list herror))
   | inr (i', ret, errs) => bnd i' /\ i <= i' /\ hdr_wf ret /\ errs_wf errs
   end.
 
-Lemma section_loop_spec fixed : forall fuel i ret errs, bnd i -> hdr_wf ret -> errs_wf errs ->
-  safe fixed (section_loop fixed src fuel i ret errs) (good_loop i) (2 * (len - i) + 2) fuel.
+Lemma section_loop_spec fixed dfx stk : forall fuel i ret errs, bnd i -> hdr_wf ret -> errs_wf errs ->
+  safe fixed stk (section_loop fixed dfx stk src fuel i ret errs) (good_loop i) (2 * (len - i) + 2) fuel.
 Proof.
   induction fuel as [|f IH]; intros i ret errs Hb Hret Herrs.
   - simpl. right. lia.
@@ -744,8 +756,8 @@ Proof.
     la_step RBRACE Hb as o Ho.
     destruct ((match o with None => true | Some _ => false end) && (i <? len)) eqn:Ec;
       [|simpl; repeat split; auto].
-    pose proof (parse_key_value_spec fixed f i Hb) as Hkv.
-    destruct (parse_key_value fixed src f i) as [kv| |]; cbn [obind]; simpl in Hkv.
+    pose proof (parse_key_value_spec fixed dfx stk f i Hb) as Hkv.
+    destruct (parse_key_value fixed dfx stk src f i) as [kv| |]; cbn [obind]; simpl in Hkv.
     + destruct kv as [[[[key key_loc] val] j]|e].
       * destruct Hkv as (Hbj & Hij & Hkl & Hvs).
         pose proof (boundary_le _ _ Hbj) as Hjl.
@@ -835,8 +847,8 @@ Qed.
 Lemma bnd_0 : bnd 0.
 Proof. exists [], src. split; reflexivity. Qed.
 
-Lemma parse_spec fixed required fuel :
-  safe fixed (parse fixed src required fuel) good_res (2 * len + 3) fuel.
+Lemma parse_spec fixed dfx stk required fuel :
+  safe fixed stk (parse fixed dfx stk src required fuel) good_res (2 * len + 3) fuel.
 Proof.
   unfold parse.
   ws_step bnd_0 as w0 Hbw Hlew.
@@ -848,9 +860,9 @@ Proof.
     destruct o1 as [j|].
     + destruct Ho1 as (Hbj & Hj).
       ws_step Hbj as i1 Hb1 Hle1.
-      pose proof (section_loop_spec fixed fuel i1 [] [] Hb1) as Hl.
+      pose proof (section_loop_spec fixed dfx stk fuel i1 [] [] Hb1) as Hl.
       specialize (Hl ltac:(constructor) ltac:(constructor)).
-      destruct (section_loop fixed src fuel i1 [] []) as [st| |]; cbn [obind]; simpl in Hl.
+      destruct (section_loop fixed dfx stk src fuel i1 [] []) as [st| |]; cbn [obind]; simpl in Hl.
       * destruct st as [es|[[i2 ret] errs]].
         -- destruct Hl as (H1 & H2). simpl. apply good_res_errs; assumption.
         -- destruct Hl as (Hb2 & Hle2 & Hret & Herrs).
@@ -870,29 +882,121 @@ Qed.
 
 End WithSrc.
 
+(* ---- the nesting limit: MAX_SETTING_DEPTH + 1 frames are enough ------------- *)
+
+Lemma obind_ext {A B} (o : outcome A) (f g : A -> outcome B) :
+  (forall a, f a = g a) -> obind o f = obind o g.
+Proof. intros H. destruct o; simpl; [apply H | reflexivity | reflexivity]. Qed.
+
+(* every call of parse_setting runs at depth <= MAX_SETTING_DEPTH and every array
+   loop at depth < MAX_SETTING_DEPTH: the stack check of a stack with more than
+   MAX_SETTING_DEPTH frames never fires *)
+Lemma depth_setting_master fixed src s : MAX_SETTING_DEPTH < s -> forall fuel,
+  (forall d i0, d <= MAX_SETTING_DEPTH ->
+     parse_setting fixed true (Some s) src fuel d i0 = parse_setting fixed true None src fuel d i0) /\
+  (forall d i open_pos j0 vals, d < MAX_SETTING_DEPTH ->
+     array_loop fixed true (Some s) src fuel d i open_pos j0 vals =
+     array_loop fixed true None src fuel d i open_pos j0 vals).
+Proof.
+  intros Hs. induction fuel as [|f [IHs IHa]].
+  - split; intros; reflexivity.
+  - split.
+    + intros d i0 Hd. rewrite !parse_setting_S. unfold stack_exhausted.
+      replace (s <=? d) with false by (symmetry; apply Nat.leb_gt; lia).
+      apply obind_ext; intros i. apply obind_ext; intros rest.
+      destruct (re_digits rest) as [mend|]; [reflexivity|].
+      apply obind_ext; intros rest'.
+      destruct (re_string rest') as [mend|]; [reflexivity|].
+      apply obind_ext; intros la. destruct la as [j|]; [|reflexivity].
+      cbn [andb]. destruct (MAX_SETTING_DEPTH <=? d) eqn:E; [reflexivity|].
+      apply Nat.leb_gt in E. apply IHa. exact E.
+    + intros d i open_pos j0 vals Hd. rewrite !array_loop_S.
+      apply obind_ext; intros j. apply obind_ext; intros la.
+      destruct la as [end_pos|]; [reflexivity|].
+      rewrite IHs by lia.
+      apply obind_ext; intros r. destruct r as [[val k]|e].
+      * apply obind_ext; intros j1. apply obind_ext; intros la1. apply IHa. exact Hd.
+      * apply obind_ext; intros la0. destruct la0 as [x|]; [|reflexivity].
+        apply obind_ext; intros la1. apply IHa. exact Hd.
+Qed.
+
+Lemma depth_key_value fixed src s fuel i : MAX_SETTING_DEPTH < s ->
+  parse_key_value fixed true (Some s) src fuel i = parse_key_value fixed true None src fuel i.
+Proof.
+  intros Hs. unfold parse_key_value.
+  apply obind_ext; intros la. destruct la as [j|]; [reflexivity|].
+  apply obind_ext; intros r. destruct r as [[key_name j]|e]; [|reflexivity].
+  apply obind_ext; intros key_span. apply obind_ext; intros i1. apply obind_ext; intros la1.
+  destruct la1 as [j1|]; [|reflexivity].
+  rewrite (proj1 (depth_setting_master fixed src s Hs fuel)) by lia. reflexivity.
+Qed.
+
+Lemma depth_section_loop fixed src s : MAX_SETTING_DEPTH < s -> forall fuel i ret errs,
+  section_loop fixed true (Some s) src fuel i ret errs =
+  section_loop fixed true None src fuel i ret errs.
+Proof.
+  intros Hs. induction fuel as [|f IH]; intros i ret errs; [reflexivity|].
+  rewrite !section_loop_S. apply obind_ext; intros la.
+  destruct ((match la with None => true | Some _ => false end) && (i <? byte_len src)); [|reflexivity].
+  rewrite (depth_key_value fixed src s f i Hs).
+  apply obind_ext; intros kv. destruct kv as [[[[key key_loc] val] j]|e]; [|reflexivity].
+  apply obind_ext; intros st. destruct st as [ret' errs'].
+  apply obind_ext; intros la1. destruct la1 as [j1|]; [|reflexivity].
+  apply obind_ext; intros i'. apply IH.
+Qed.
+
+Lemma header_depth_bounded : header_depth_bounded_stmt.
+Proof.
+  intros fixed src required fuel s Hs. unfold parse_header_gen, parse.
+  apply obind_ext; intros w0. apply obind_ext; intros la. destruct la as [i0|]; [|reflexivity].
+  apply obind_ext; intros i. cbv zeta. apply obind_ext; intros la1. destruct la1 as [j|]; [|reflexivity].
+  apply obind_ext; intros i1. rewrite (depth_section_loop fixed src s Hs). reflexivity.
+Qed.
+
 (* ---- the theorems ---------------------------------------------------------- *)
+
+Lemma header_total_unbounded dfx src required : exists r,
+  parse_header_gen true dfx required None (fuel_for src) src = Done r /\ (is_ok r \/ errors r <> []).
+Proof.
+  unfold parse_header_gen.
+  pose proof (parse_spec src true dfx None required (fuel_for src)) as H.
+  destruct (parse true dfx None src required (fuel_for src)) as [r| |]; simpl in H.
+  - exists r. split; [reflexivity|]. apply H.
+  - destruct H as [H|H]; [discriminate | congruence].
+  - destruct H as [H|H]; [discriminate | unfold fuel_for in H; lia].
+Qed.
 
 Lemma header_total : header_total_stmt.
 Proof.
-  intros src required. unfold parse_header_fixed, parse_header_gen.
-  pose proof (parse_spec src true required (fuel_for src)) as H.
-  destruct (parse true src required (fuel_for src)) as [r| |]; simpl in H.
-  - exists r. split; [reflexivity|]. apply H.
-  - discriminate.
-  - destruct H as [H|H]; [discriminate | unfold fuel_for in H; lia].
+  intros dfx stack src required Hfit. destruct stack as [s|].
+  - destruct Hfit as (Hd & Hs). subst dfx.
+    rewrite (header_depth_bounded true src required (fuel_for src) s Hs).
+    apply header_total_unbounded.
+  - apply header_total_unbounded.
+Qed.
+
+Lemma header_never_panics_unbounded dfx src required fuel :
+  parse_header_gen true dfx required None fuel src <> Panic.
+Proof.
+  unfold parse_header_gen.
+  pose proof (parse_spec src true dfx None required fuel) as H.
+  destruct (parse true dfx None src required fuel) as [r| |]; simpl in H; try discriminate.
+  destruct H as [H|H]; [discriminate | congruence].
 Qed.
 
 Lemma header_never_panics : header_never_panics_stmt.
 Proof.
-  intros src required fuel. unfold parse_header_fixed, parse_header_gen.
-  pose proof (parse_spec src true required fuel) as H.
-  destruct (parse true src required fuel) as [r| |]; simpl in H; discriminate.
+  intros dfx stack src required fuel Hfit. destruct stack as [s|].
+  - destruct Hfit as (Hd & Hs). subst dfx.
+    rewrite (header_depth_bounded true src required fuel s Hs).
+    apply header_never_panics_unbounded.
+  - apply header_never_panics_unbounded.
 Qed.
 
 Lemma header_spans_wellformed : header_spans_wellformed_stmt.
 Proof.
-  intros fixed src required fuel r Hr. unfold parse_header_gen in Hr.
-  pose proof (parse_spec src fixed required fuel) as H.
+  intros fixed dfx stack src required fuel r Hr. unfold parse_header_gen in Hr.
+  pose proof (parse_spec src fixed dfx stack required fuel) as H.
   rewrite Hr in H. simpl in H. destruct H as (H1 & H2 & _). split; assumption.
 Qed.
 
@@ -905,32 +1009,33 @@ Proof.
   - exists PANIC_WITNESS, false. vm_compute. reflexivity.
 Qed.
 
-(* what the repaired parser answers on the two witnesses *)
-Example fixed_on_hang_witness :
-  parse_header_fixed false (fuel_for HANG_WITNESS) HANG_WITNESS =
+(* what the repaired parser answers on the two witnesses (with and without the
+   nesting limit) *)
+Example fixed_on_hang_witness : forall dfx,
+  parse_header_fixed dfx false (fuel_for HANG_WITNESS) HANG_WITNESS =
   Done (HErrs [{| ekind := IllegalName; elocs := [(14, 14)] |}]).
-Proof. vm_compute. reflexivity. Qed.
+Proof. intros [|]; vm_compute; reflexivity. Qed.
 
-Example fixed_on_panic_witness :
-  parse_header_fixed false (fuel_for PANIC_WITNESS) PANIC_WITNESS =
+Example fixed_on_panic_witness : forall dfx,
+  parse_header_fixed dfx false (fuel_for PANIC_WITNESS) PANIC_WITNESS =
   Done (HErrs [{| ekind := ConversionError; elocs := [(13, 36)] |}]).
-Proof. vm_compute. reflexivity. Qed.
+Proof. intros [|]; vm_compute; reflexivity. Qed.
 
 (* a successful parse (the three outcome classes are inhabited):
    %grmtools{a: [1, B::C]} *)
-Example fixed_ok_example :
-  parse_header_fixed true 60
+Example fixed_ok_example : forall dfx,
+  parse_header_fixed dfx true 60
     [37; 103; 114; 109; 116; 111; 111; 108; 115; 123; 97; 58; 32; 91; 49; 44; 32; 66; 58; 58; 67; 93; 125]%N =
   Done (HOk [([97%N], ((10, 11),
                 SettingV (Array [Num 1 (14, 15);
                                  Unitary {| ns_namespace := Some ([98%N], (17, 18)); ns_member := ([99%N], (20, 21)) |}]
                                 (13, 14) (21, 22))))] 23).
-Proof. vm_compute. reflexivity. Qed.
+Proof. intros [|]; vm_compute; reflexivity. Qed.
 
 (* ---- stronger: no fuel is enough for the unterminated array ---------------- *)
 
-Lemma hang_setting_at_end f :
-  parse_setting false HANG_WITNESS f 14 =
+Lemma hang_setting_at_end f d :
+  parse_setting false false None HANG_WITNESS f d 14 =
   match f with
   | 0 => OutOfFuel
   | S _ => Done (Err {| ekind := IllegalName; elocs := [(14, 14)] |})
@@ -938,35 +1043,35 @@ Lemma hang_setting_at_end f :
 Proof.
   destruct f as [|f]; [reflexivity|].
   rewrite parse_setting_S.
-  remember (array_loop false HANG_WITNESS f) as AL eqn:HAL. clear HAL.
+  remember (array_loop false false None HANG_WITNESS f) as AL eqn:HAL. clear HAL.
   vm_compute. reflexivity.
 Qed.
 
-Lemma hang_array_loop : forall f, array_loop false HANG_WITNESS f 13 14 14 [] = OutOfFuel.
+Lemma hang_array_loop : forall f d, array_loop false false None HANG_WITNESS f d 13 14 14 [] = OutOfFuel.
 Proof.
-  induction f as [|f IH]; [reflexivity|].
+  induction f as [|f IH]; intros d; [reflexivity|].
   rewrite array_loop_S.
   change (parse_ws HANG_WITNESS 14) with (Done 14 : outcome nat). cbn [obind].
   change (lookahead_is HANG_WITNESS RBRACK 14) with (Done None : outcome (option nat)). cbn [obind].
   rewrite hang_setting_at_end.
   destruct f as [|f']; [reflexivity|]. cbn [obind].
   change (lookahead_is HANG_WITNESS COMMA 14) with (Done None : outcome (option nat)). cbn [obind].
-  exact IH.
+  apply IH.
 Qed.
 
-Lemma hang_setting : forall f, parse_setting false HANG_WITNESS f 12 = OutOfFuel.
+Lemma hang_setting : forall f d, parse_setting false false None HANG_WITNESS f d 12 = OutOfFuel.
 Proof.
-  intros f. destruct f as [|f]; [reflexivity|].
-  rewrite parse_setting_S.
+  intros f d. destruct f as [|f]; [reflexivity|].
+  rewrite parse_setting_S. cbn [stack_exhausted].
   change (parse_ws HANG_WITNESS 12) with (Done 13 : outcome nat). cbn [obind].
   change (slice_from HANG_WITNESS 13) with (Done [91%N] : outcome (list N)). cbn [obind].
   change (re_digits [91%N]) with (@None nat).
   change (re_string [91%N]) with (@None nat). cbn iota.
-  change (lookahead_is HANG_WITNESS LBRACK 13) with (Done (Some 14) : outcome (option nat)). cbn [obind].
+  change (lookahead_is HANG_WITNESS LBRACK 13) with (Done (Some 14) : outcome (option nat)). cbn [obind andb].
   apply hang_array_loop.
 Qed.
 
-Lemma hang_key_value : forall f, parse_key_value false HANG_WITNESS f 10 = OutOfFuel.
+Lemma hang_key_value : forall f, parse_key_value false false None HANG_WITNESS f 10 = OutOfFuel.
 Proof.
   intros f. unfold parse_key_value.
   change (lookahead_is HANG_WITNESS BANG 10) with (Done None : outcome (option nat)). cbn [obind].
@@ -977,7 +1082,7 @@ Proof.
   rewrite hang_setting. reflexivity.
 Qed.
 
-Lemma hang_section_loop : forall f, section_loop false HANG_WITNESS f 10 [] [] = OutOfFuel.
+Lemma hang_section_loop : forall f, section_loop false false None HANG_WITNESS f 10 [] [] = OutOfFuel.
 Proof.
   intros f. destruct f as [|f]; [reflexivity|].
   rewrite section_loop_S.
@@ -1003,3 +1108,127 @@ Proof.
   unfold parse_header_orig, parse_header_gen.
   destruct required; vm_compute; reflexivity.
 Qed.
+
+(* ---- without the nesting limit every stack is exhausted --------------------- *)
+
+Lemma byte_len_repeat_ascii n : byte_len (repeat 91%N n) = n.
+Proof. induction n as [|n IH]; [reflexivity|]. cbn [repeat byte_len]. rewrite IH. reflexivity. Qed.
+
+Lemma parse_ws_at src i c rest :
+  at_pos src i (c :: rest) -> is_pws c = false -> parse_ws src i = Done i.
+Proof.
+  intros Hat Hc. unfold parse_ws. rewrite (slice_from_at _ _ _ Hat). cbn [obind].
+  unfold re_ws. cbn [take_while]. rewrite Hc. reflexivity.
+Qed.
+
+Lemma lookahead_at src s i rest : at_pos src i rest ->
+  lookahead_is src s i = Done (if starts_with s rest then Some (i + byte_len s) else None).
+Proof. intros Hat. unfold lookahead_is. rewrite (slice_from_at _ _ _ Hat). reflexivity. Qed.
+
+(* parse_setting on a '[' (no nesting limit): the array loop, one frame up *)
+Lemma setting_at_lbrack fixed stk src f d i rest :
+  at_pos src i (91%N :: rest) ->
+  parse_setting fixed false stk src (S f) d i =
+  if stack_exhausted stk d then Panic else array_loop fixed false stk src f d i (i + 1) (i + 1) [].
+Proof.
+  intros Hat. rewrite parse_setting_S. destruct (stack_exhausted stk d); [reflexivity|].
+  rewrite (parse_ws_at _ _ _ _ Hat) by reflexivity. cbn [obind].
+  rewrite (slice_from_at _ _ _ Hat). cbn [obind].
+  change (re_digits (91%N :: rest)) with (@None nat).
+  change (re_string (91%N :: rest)) with (@None nat). cbn iota.
+  rewrite (lookahead_at _ LBRACK _ _ Hat).
+  change (starts_with LBRACK (91%N :: rest)) with true. cbn [obind andb]. reflexivity.
+Qed.
+
+(* the array loop standing on a '[' calls parse_setting one level deeper *)
+Lemma array_at_lbrack_panics fixed stk src f d i o j rest vals :
+  at_pos src j (91%N :: rest) ->
+  parse_setting fixed false stk src f (S d) j = Panic ->
+  array_loop fixed false stk src (S f) d i o j vals = Panic.
+Proof.
+  intros Hat Hp. rewrite array_loop_S.
+  rewrite (parse_ws_at _ _ _ _ Hat) by reflexivity. cbn [obind].
+  rewrite (lookahead_at _ RBRACK _ _ Hat).
+  change (starts_with RBRACK (91%N :: rest)) with false. cbn [obind].
+  rewrite Hp. reflexivity.
+Qed.
+
+(* m '[' ahead at depth d: the recursion reaches depth d + m - 1 *)
+Lemma deep_setting_panics fixed src s : forall m d f i rest,
+  at_pos src i (repeat 91%N m ++ rest) -> s < d + m -> 2 * m + 1 <= f ->
+  parse_setting fixed false (Some s) src f d i = Panic.
+Proof.
+  induction m as [|m IH]; intros d f i rest Hat Hs Hf.
+  - destruct f as [|f]; [lia|]. rewrite parse_setting_S. unfold stack_exhausted.
+    replace (s <=? d) with true by (symmetry; apply Nat.leb_le; lia). reflexivity.
+  - destruct f as [|f]; [lia|]. cbn [repeat app] in Hat.
+    rewrite (setting_at_lbrack _ _ _ _ _ _ _ Hat). unfold stack_exhausted.
+    destruct (s <=? d) eqn:E; [reflexivity|]. apply Nat.leb_gt in E.
+    destruct f as [|f]; [lia|].
+    destruct m as [|m']; [lia|].
+    assert (Hat' : at_pos src (i + 1) (repeat 91%N (S m') ++ rest)).
+    { change (91%N :: repeat 91%N (S m') ++ rest) with ([91%N] ++ (repeat 91%N (S m') ++ rest)) in Hat.
+      apply at_pos_app in Hat. exact Hat. }
+    pose proof Hat' as Hat''. cbn [repeat app] in Hat''.
+    eapply array_at_lbrack_panics; [exact Hat''|].
+    apply (IH (S d) f (i + 1) rest Hat'); lia.
+Qed.
+
+(* the way to the setting of %grmtools{a:… *)
+Lemma deep_hdr_facts tail :
+  parse_ws (DEEP_HDR ++ tail) 0 = Done 0 /\
+  lookahead_is (DEEP_HDR ++ tail) MAGIC 0 = Done (Some 9) /\
+  parse_ws (DEEP_HDR ++ tail) 9 = Done 9 /\
+  lookahead_is (DEEP_HDR ++ tail) LBRACE 9 = Done (Some 10) /\
+  parse_ws (DEEP_HDR ++ tail) 10 = Done 10 /\
+  lookahead_is (DEEP_HDR ++ tail) RBRACE 10 = Done None /\
+  (10 <? byte_len (DEEP_HDR ++ tail)) = true /\
+  lookahead_is (DEEP_HDR ++ tail) BANG 10 = Done None /\
+  parse_name (DEEP_HDR ++ tail) 10 = Done (Ok ([97%N], 11)) /\
+  parse_ws (DEEP_HDR ++ tail) 11 = Done 11 /\
+  lookahead_is (DEEP_HDR ++ tail) COLON 11 = Done (Some 12).
+Proof. repeat split; vm_compute; reflexivity. Qed.
+
+Lemma header_depth_unbounded_refuted : header_depth_unbounded_refuted_stmt.
+Proof.
+  intros s fixed required fuel Hf.
+  assert (Hlen : byte_len (DEEP_WITNESS (S s)) = 12 + S s).
+  { unfold DEEP_WITNESS. rewrite byte_len_app, byte_len_repeat_ascii. reflexivity. }
+  unfold fuel_for in Hf. rewrite Hlen in Hf.
+  unfold parse_header_gen, parse, DEEP_WITNESS.
+  destruct (deep_hdr_facts (repeat 91%N (S s))) as (F1 & F2 & F3 & F4 & F5 & F6 & F7 & F8 & F9 & F10 & F11).
+  rewrite F1; cbn [obind]. rewrite F2; cbn [obind]. rewrite F3; cbn [obind].
+  rewrite F4; cbn [obind]. rewrite F5; cbn [obind].
+  destruct fuel as [|f]; [lia|].
+  rewrite section_loop_S. rewrite F6; cbn [obind]. rewrite F7. cbn [andb].
+  unfold parse_key_value.
+  rewrite F8; cbn [obind]. rewrite F9; cbn [obind].
+  change (mk_span 10 11) with (Done (10, 11) : outcome span). cbn [obind].
+  rewrite F10; cbn [obind]. rewrite F11; cbn [obind].
+  rewrite (deep_setting_panics fixed (DEEP_HDR ++ repeat 91%N (S s)) s (S s) 0 f 12 []).
+  - reflexivity.
+  - exists DEEP_HDR. split; [rewrite app_nil_r; reflexivity | reflexivity].
+  - lia.
+  - lia.
+Qed.
+
+Lemma header_depth_bound_tight : header_depth_bound_tight_stmt.
+Proof. exists (DEEP_WITNESS 65). intros [|]; vm_compute; reflexivity. Qed.
+
+(* with the limit, on a stack of MAX_SETTING_DEPTH + 1 frames: the 65th '[' of
+   1000 is reported (at its position, 12 + 64); 64 levels are accepted *)
+Example depth_fixed_on_deep_witness :
+  parse_header_gen true true false (Some 65) (fuel_for (DEEP_WITNESS 1000)) (DEEP_WITNESS 1000) =
+  Done (HErrs [{| ekind := UnexpectedToken 91; elocs := [(76, 77)] |}]).
+Proof. vm_compute. reflexivity. Qed.
+
+Example depth_fixed_accepts_64_levels :
+  let src := DEEP_HDR ++ repeat 91%N 64 ++ repeat 93%N 64 ++ [125%N] in
+  exists h, parse_header_gen true true false (Some 65) (fuel_for src) src = Done (HOk h 141).
+Proof. eexists. vm_compute. reflexivity. Qed.
+
+Example depth_fixed_rejects_65_levels :
+  let src := DEEP_HDR ++ repeat 91%N 65 ++ repeat 93%N 65 ++ [125%N] in
+  parse_header_gen true true false (Some 65) (fuel_for src) src =
+  Done (HErrs [{| ekind := UnexpectedToken 91; elocs := [(76, 77)] |}]).
+Proof. vm_compute. reflexivity. Qed.
